@@ -76,6 +76,8 @@ macro_rules! text_harness {
         fn $name() { text_line_roundtrip::<$n>(); }
     };
 }
+//@ C15 c15_mission_line_n6 thorough default,bounded BOUNDED encoded length 6, first line: same ciphered-line round trip with a longer text
+text_harness!(c15_mission_line_n6, 6);
 //@ C15 c15_mission_line_n3 quick default,bounded BOUNDED encoded length 3, first line (transcoder stubbed in both directions): a mission.msg text line is 64 bytes, and for every cipher key (stage, scene, player) the reader's added stream undoes the writer's subtracted stream: the decoder receives exactly the encoded bytes
 text_harness!(c15_mission_line_n3, 3);
 
